@@ -57,10 +57,59 @@ def run(ck: Check) -> None:
     skip_edges(ck, "K")
     blocks(ck, "B")
     asserts(ck, "A")
+    wrappers(ck, "W")
+    ck.floor("W", 7)
     ck.floor("A", 5)
     ck.floor("G", 24)
     ck.floor("K", 3)
     ck.floor("B", 3)
+
+
+def wrappers(ck: Check, rule: str, only: tuple[str, ...] | None = None) -> None:
+    """The public expansion methods are thin wrappers: every normal return of the method hands back the result of the
+    strategy it stands for, run on this diagram. A shortcut that returns without running the strategy reports a
+    completeness that nobody established."""
+    prog = ck.prog
+    n_ = 0
+    for fm in prog.models():
+        f = fm.f
+        if f.cls != "SuccessionDiagram":
+            continue
+        algo = []
+        for c in own_walk(f.node):
+            if isinstance(c, ast.Call):
+                tgt = prog.repo.resolve_call(f, c)
+                if tgt and tgt.startswith("biobalm._sd_algorithms.") and tgt.split(":")[1].startswith("expand_"):
+                    algo.append((c, tgt))
+        if not algo or (only and f.name not in only):
+            continue
+        n_ += 1
+        probs = []
+        calls = {fm.cfgn(c).id: c for c, _ in algo}
+        for r in own_walk(f.node):
+            if not isinstance(r, ast.Return):
+                continue
+            rn = fm.cfgn(r)
+            v = fm.deref(r.value, rn) if r.value is not None else None
+            if v is not None and any(v is c for c, _ in algo):
+                continue
+            # a return of something else must at least come after the strategy ran
+            reach = fm.cfg.reach_avoiding(fm.cfg.entry, [fm.cfg.nodes[i] for i in calls], forward_from_succ=True)
+            if rn.id in reach:
+                probs.append(f"line {r.lineno}: `{text(r)[:50]}` is reached without running "
+                             f"{'/'.join(sorted({t.split(':')[1] for _, t in algo}))}: the method reports a result (completion) "
+                             f"that the strategy never established")
+            elif r.value is None or not isinstance(v, ast.Call):
+                probs.append(f"line {r.lineno}: the method returns `{text(r.value) if r.value is not None else None}`, not the "
+                             f"result of the strategy")
+        for c, tgt in algo:
+            a0 = call_arg(c, 0, "sd")
+            if a0 is None or text(a0) != "self":
+                probs.append(f"line {c.lineno}: the strategy runs on `{text(a0) if a0 is not None else '?'}`, not on this diagram")
+        ck.ob(rule, fm, f.node, not probs, "; ".join(probs) if probs else
+              f"every return hands back {algo[0][1].split(':')[1]}(self, ...)", key=f"wrapper {f.name}")
+    if not n_:
+        raise AnalysisError("anchor vanished: expansion wrappers of SuccessionDiagram")
 
 
 def asserts(ck: Check, rule: str) -> None:
@@ -644,6 +693,51 @@ def skip_edges(ck: Check, rule: str) -> None:
                     probs.append(f"line {x.lineno}: `{text(x)}` skips minimal trap spaces")
         ck.ob(rule, fm, f.node, not probs, "; ".join(sorted(set(probs))) if probs else
               "skip edges lead to every minimal trap space inside the node", key="skip edges")
+        # a node that is closed *without* becoming a skip node (no edges, not flagged) is declared minimal: the evidence
+        # must say that the only minimal trap space inside it is the node's own space
+        evs = fm.field_events()
+        sk_nodes = [e for e in evs if e.kind == "store" and e.field == "skipped"]
+        grown = set()
+        for g in growth:
+            st_ = f.stmt_of(g.call)
+            if isinstance(st_, ast.Assign) and isinstance(st_.targets[0], ast.Name):
+                grown.add(fm.cfgn(st_).id)
+        for e in evs:
+            if not (e.kind == "store" and e.field == "expanded" and is_true(e.value)):
+                continue
+            if any(k_.hk == e.hk and (k_.cfgn.id in fm.cfg.reach_avoiding(e.cfgn, []) or e.cfgn.id in fm.cfg.reach_avoiding(k_.cfgn, []))
+                   for k_ in sk_nodes):
+                continue       # the skip node itself (C05-M checks the flags)
+            vds = fm.value_defs(e.nid, e.cfgn)
+            if vds and all(d.id in grown or (isinstance(v_, ast.Call) and callee_name(v_) == "_ensure_node") for d, v_ in vds):
+                continue       # a minimal trap space taken from the list (created right here)
+            pc = fm.pc(e.cfgn)
+            space = f"FIELD<{e.diag}|{e.nid}|space>"
+            ev_ok = False
+            seen_list = None
+            for a in logic.atoms(pc):
+                if a[0] == "b" and a[1].startswith("eq:") and space in a[1].split("|") or \
+                        (a[0] == "b" and a[1].startswith("eq:") and space in a[1]):
+                    other = a[1][3:].replace(space, "").strip("|")
+                    if other.endswith("[0]"):
+                        T = other[:-3]
+                        seen_list = T
+                        want = logic.And(("atom", a), logic.Eq("1", f"len({T})"))
+                        try:
+                            tl_ok = _trap_list_origin(prog, fm, ast.Name(T, ast.Load()), e.cfgn, 0)[0] if T.isidentifier() else False
+                        except AnalysisError:
+                            tl_ok = False
+                        if tl_ok and logic.implies(pc, want):
+                            ev_ok = True
+                if a[0] == "b" and a[1] == f"T:node_is_minimal({e.nid})" and logic.implies(pc, ("atom", a)):
+                    ev_ok = True
+            ck.ob(rule, fm, e.stmt, ev_ok,
+                  "declared minimal only when the single minimal trap space inside the node is the node's own space" if ev_ok else
+                  f"`{e.nid}` is closed without successors and without becoming a skip node under `{logic.show(pc)[:140]}`: this "
+                  f"does not establish that the node is itself a minimal trap space (required: the list of minimal trap spaces "
+                  f"inside it has one element and that element is the node's space); a node holding one smaller minimal trap "
+                  f"space would pass as minimal, and the real one is never added",
+                  key=f"declared minimal: {e.nid}")
 
 
 def _trap_list_origin(prog, fm: FuncModel, e: ast.AST, at, depth: int, filters: list | None = None) -> tuple[bool, str]:
